@@ -23,7 +23,8 @@ def run(pid, tier, seed):
     mc = vlib.mc_or_die("MC_Mailbox", "MC_Mailbox_small.cfg", workers=12, timeout=900)
     mcs = [mc]
     if tier == "thorough":
-        mcs.append(vlib.mc_or_die("MC_Mailbox", "MC_Mailbox_big.cfg", workers=14, timeout=3000))
+        mcs.append(vlib.mc_or_die("MC_Mailbox", "MC_Mailbox_mid.cfg", workers=14, timeout=3000))
+        mcs.append(vlib.mc_or_die("MC_Mailbox", "MC_Mailbox_big.cfg", workers=14, timeout=5000))
         mcs.append(vlib.mc_or_die("MC_Mailbox", "MC_Mailbox_live.cfg", workers=8, timeout=1800))
     for m in mcs:
         if m["violated"]:
@@ -54,7 +55,7 @@ def run(pid, tier, seed):
     cov = {
         "states": sum(m["states"] for m in mcs),
         "transitions": sum(m["transitions"] for m in mcs),
-        "traces_validated_against_impl": vb["strict_accepted"] + len(vb["divergences"]),
+        "traces_validated_against_impl": vb["strict_accepted"] + vb["lenient_accepted"] + len(vb["divergences"]),
         "samples": summ.get("samples", [])[:3],
         "evaluations": summ["runs"],
         "distinct_nontrivial": summ["distinct_nontrivial"],
@@ -63,12 +64,14 @@ def run(pid, tier, seed):
                 "hash; non-trivial = contains at least one preemption (context switch away from a runnable thread)",
         "events_validated": vb["events"],
         "strict_accepted_runs": vb["strict_accepted"],
+        "lenient_only_accepted_runs": vb["lenient_accepted"],
+        "unvalidated_runs": vb["unvalidated"],
         "divergences": len(vb["divergences"]),
         "rejected_runs": len(vb["violations"]),
         "tlc_trace_states": vb["tlc_states"],
         "mc_configs": [{"cfg": m["cfg"], "states": m["states"], "transitions": m["transitions"], "wall_s": m["wall_s"],
                         "actions_covered": len([a for a, c in m["coverage"].items() if c > 0])} for m in mcs],
-        "bounds": "M: 2 senders x 2 msgs + 1 drainer (+ 3x1 + 2 drainers in thorough); V: shapes up to 3 senders x 3 msgs, 2 drainers",
+        "bounds": "M quick: 2 senders x 1 msg + 1 drainer + exiting consumer with explicit CAS-loop iterations; thorough adds 2x2+1 and 3x1+2 drainers and the fairness run; V: shapes up to 3 senders x 3 msgs, 2 drainers",
         "exhaustive": False,
     }
     vlib.write_evidence(pid, tier, seed, cov, ASSUME, time.time() - t0, len(v.violations))
